@@ -91,5 +91,35 @@ pub proof fn theorem_do_after_undo(
     }
 }
 
+// ---- conjugation (C06): two round sequences related by round-dependent layout maps.
+// If for every round r < n the layout-decoded result of the bit-slice round equals the
+// specification round of the decoded state (obligation J2 per layout class, J3 for the constants),
+// then decoding after n bit-slice rounds equals n specification rounds of the decoded input.
+pub open spec fn run(f: spec_fn(int, Seq<u8>) -> Seq<u8>, n: nat, x: Seq<u8>) -> Seq<u8>
+    decreases n
+{
+    if n == 0 { x } else { f(n - 1, run(f, (n - 1) as nat, x)) }
+}
+pub proof fn theorem_conjugation(
+    f_b: spec_fn(int, Seq<u8>) -> Seq<u8>,
+    f_s: spec_fn(int, Seq<u8>) -> Seq<u8>,
+    dec: spec_fn(int, Seq<u8>) -> Seq<u8>,
+    n: nat,
+    x: Seq<u8>,
+)
+    requires
+        forall|r: int, y: Seq<u8>| 0 <= r < n ==> #[trigger] dec(r + 1, f_b(r, y)) == f_s(r, dec(r, y)),
+    ensures
+        dec(n as int, run(f_b, n, x)) == run(f_s, n, dec(0, x)),
+    decreases n
+{
+    if n > 0 {
+        let m = (n - 1) as nat;
+        theorem_conjugation(f_b, f_s, dec, m, x);
+        let y = run(f_b, m, x);
+        assert(dec((n - 1) + 1, f_b(n - 1, y)) == f_s(n - 1, dec(n - 1, y)));
+    }
+}
+
 } // verus!
 fn main() {}
